@@ -114,9 +114,9 @@ def run(ctx):
         # the last SetAsyncExc on the success path must be the raising one (a trailing reset would cancel the request)
         g = ctx.an.cfg(fr)
         if raising:
-            rn = [n for n in g.nodes if n.stmt is not None and n.part == 'post' and any(c is raising[-1] for c in calls_in(n.stmt))]
+            rn = [n for n in g.nodes if n.stmt is not None and n.part == 'post' and any(c is raising[-1] for c in n.calls())]
             resets = [n for n in g.nodes if n.stmt is not None and n.part == 'post' and any(
-                c in api and c not in raising for c in calls_in(n.stmt))]
+                c in api and c not in raising for c in n.calls())]
             after = g.reachable(rn, edge_ok=is_flow)
             cancel = [n for n in resets if n.id in after and g.find_path([n], lambda x: x is g.exit, edge_ok=is_flow)]
             ctx.check('R1', 'no reset of the async exception follows the request on the success path', not cancel, 'utils.foreign_raise',
@@ -136,8 +136,8 @@ def run(ctx):
             n_hops += 1
             if inj is not None:
                 g = ctx.an.cfg(term, cls)
-                inj_nodes = {n.id for n in g.nodes if n.stmt is not None and n.part == 'eval' and any(c is inj for c in calls_in(n.stmt))}
-                joins = [n for n in g.nodes if n.stmt is not None and n.part == 'eval' and any(last_attr(c) == 'join' for c in calls_in(n.stmt))]
+                inj_nodes = {n.id for n in g.nodes if n.stmt is not None and n.part == 'eval' and any(c is inj for c in n.calls())}
+                joins = [n for n in g.nodes if n.stmt is not None and n.part == 'eval' and any(last_attr(c) == 'join' for c in n.calls())]
                 dom = g.dominators(edge_ok=is_flow)
                 ok = bool(joins) and all(dom.get(j.id, set()) & inj_nodes for j in joins)
                 ctx.check('R1', f'{cls.name}.terminate: the injection precedes every join', ok, term.short, 'join-without-injection',
@@ -150,7 +150,7 @@ def run(ctx):
         if kind in ('process', 'remote'):
             g = lc.g
             starts = [n for n in g.nodes if n.stmt is not None and n.part == 'post' and any(
-                last_attr(c) == 'start' and receiver(c) == f'self.{lc.ctrl_attr}' for c in calls_in(n.stmt))]
+                last_attr(c) == 'start' and receiver(c) == f'self.{lc.ctrl_attr}' for c in n.calls())]
             dom = g.dominators()
             sid = {n.id for n in starts}
             ok = bool(starts) and bool(lc.primary_sync) and all(dom.get(s.id, set()) & sid for s in lc.primary_sync)
@@ -201,8 +201,8 @@ def check_pipe_chain(ctx, cls, lc, func, calls, stmts, region='parent'):
     for st in walk_local(cf.node):
         if isinstance(st, ast.Assign) and st.value is recvs[0] and isinstance(st.targets[0], ast.Name):
             sigvar = st.targets[0].id
-    inj_ids = {n.id for n in g.nodes if n.stmt is not None and n.part == 'post' and any(c is inj for c in calls_in(n.stmt))}
-    recv_nodes = [n for n in g.nodes if n.stmt is not None and n.part == 'post' and any(c is recvs[0] for c in calls_in(n.stmt))]
+    inj_ids = {n.id for n in g.nodes if n.stmt is not None and n.part == 'post' and any(c is inj for c in n.calls())}
+    recv_nodes = [n for n in g.nodes if n.stmt is not None and n.part == 'post' and any(c is recvs[0] for c in n.calls())]
 
     def edge_ok(e):
         if not is_flow(e):
@@ -386,9 +386,9 @@ def check_release(ctx, cls, lc, term):
         if ok:
             # must be reached on every path from the trigger to the join
             g = ctx.an.cfg(term, cls)
-            rid = {n.id for n in g.nodes if n.stmt is not None and n.part == 'eval' and any(c is rel[0] for c in calls_in(n.stmt))}
-            tn = [n for n in g.nodes if n.stmt is not None and n.part == 'post' and any(c is trig[0] for c in calls_in(n.stmt))]
-            jn = [n for n in g.nodes if n.stmt is not None and n.part == 'eval' and any(last_attr(c) == 'join' for c in calls_in(n.stmt))
+            rid = {n.id for n in g.nodes if n.stmt is not None and n.part == 'eval' and any(c is rel[0] for c in n.calls())}
+            tn = [n for n in g.nodes if n.stmt is not None and n.part == 'post' and any(c is trig[0] for c in n.calls())]
+            jn = [n for n in g.nodes if n.stmt is not None and n.part == 'eval' and any(last_attr(c) == 'join' for c in n.calls())
                   and any(n.stmt is x or any(n.stmt is y for y in ast.walk(x)) for x in stmts)]
             jids = {n.id for n in jn}
             p = g.find_path(tn, lambda n: n.id in jids, edge_ok=is_flow, node_ok=lambda n: n.id not in rid)
@@ -550,7 +550,7 @@ def check_landings(ctx, cls, lc):
         gg = ctx.an.cfg(f, cls)
         ctx.used(f)
         call_nodes = [n for n in gg.nodes if n.stmt is not None and n.part in ('eval', 'post') and any(
-            last_attr(c) == callee and receiver(c) in ('self', 'super()') for c in calls_in(n.stmt))]
+            last_attr(c) == callee and receiver(c) in ('self', 'super()') for c in n.calls())]
         for n in call_nodes:
             for e in n.succ:
                 if e.kind != 'async':
